@@ -269,13 +269,13 @@ def manySep {α : Type} (X : Str → Option (α × Str)) (sep : Char) : Nat → 
       match litc sep r with
       | none => ([], inp)
       | some r' =>
-        let res := manySep X sep k r'
-        (e :: res.1, res.2)
+        match manySep X sep k r' with
+        | (es, r'') => (e :: es, r'')
 
 /-- `(ZeroOrMore((X, sep)), X)` -/
 def sepList {α : Type} (X : Str → Option (α × Str)) (sep : Char) (inp : Str) : Option (List α × Str) :=
-  let res := manySep X sep inp.length inp
-  (X res.2).map fun (e, r) => (res.1 ++ [e], r)
+  match manySep X sep inp.length inp with
+  | (es, r) => (X r).map fun (e, r') => (es ++ [e], r')
 
 /-- `'^'` as rewritten by `RRELPath.__init__` -/
 def caretElem : Elem := .star [[.dots 2]]
